@@ -64,6 +64,7 @@ def run_property(pid, tier):
             active = [a for a in active if a not in failed]
         for r in recs:
             r["module"] = part["module"]
+            r["include_all"] = bool(part.get("include_all"))
         records.extend(recs)
         if dropped_obs:
             records.append({"unit": "houdini", "title": "invariant conjuncts that are not inductive", "kind": "houdini",
@@ -149,7 +150,7 @@ def main():
     obs = []
     for r in records:
         for ob in r["obligations"]:
-            if relevant(ob, pid):
+            if relevant(ob, pid) or r.get("include_all"):
                 ob = dict(ob)
                 ob["unit"] = r["title"]
                 obs.append(ob)
@@ -210,7 +211,7 @@ def main():
     units_ev = []
     for r in records:
         units_ev.append({"unit": r["title"], "kind": r["kind"], "functions": r["functions"], "paths": r["paths"],
-                         "obligations": len([o for o in r["obligations"] if relevant(o, pid)]),
+                         "obligations": len([o for o in r["obligations"] if relevant(o, pid) or r.get("include_all")]),
                          "time_s": r["time"], "error": r["error"]})
     by_backend = {}
     st = 0.0
